@@ -52,8 +52,26 @@ def build(desc):
                 kw['coating'] = 'fresnel'
             else:
                 kw['coating'] = SimpleCoating(c['T'], c['R'])
+        radius = _num(s.get('radius', INF))
+        via = bool(desc.get('via_setters')) and s['index'] >= 1 and s.get('surface_type', 'standard') in \
+            ('standard', 'even_asphere') and not (isinstance(radius, float) and math.isinf(radius))
+        if via:
+            # reach the same prescription through the public setters: created as a sphere of another radius,
+            # then set_radius / set_conic (exercises state that is derived at construction time)
+            kw2 = dict(kw)
+            conic = kw2.pop('conic', None)
+            if s.get('surface_type') == 'even_asphere':
+                kw2['conic'] = 0.0
+            o.add_surface(index=s['index'], surface_type=s.get('surface_type', 'standard'),
+                          radius=radius * 1.5, thickness=_num(s.get('thickness', 0)),
+                          material=make_material(s.get('material', {'kind': 'air'})),
+                          is_stop=s.get('is_stop', False), **kw2)
+            o.set_radius(radius, s['index'])
+            if conic is not None:
+                o.set_conic(conic, s['index'])
+            continue
         o.add_surface(index=s['index'], surface_type=s.get('surface_type', 'standard'),
-                      radius=_num(s.get('radius', INF)), thickness=_num(s.get('thickness', 0)),
+                      radius=radius, thickness=_num(s.get('thickness', 0)),
                       material=make_material(s.get('material', {'kind': 'air'})),
                       is_stop=s.get('is_stop', False), **kw)
     ap = desc['aperture']
@@ -222,6 +240,21 @@ def build_case(case):
     """case = {'sample': name} or {'desc': descriptor}"""
     import contextlib, io
     with contextlib.redirect_stdout(io.StringIO()):   # Material lookup prints warnings
-        if 'sample' in case:
-            return build_sample(case['sample'])
-        return build(case['desc'])
+        optic = build_sample(case['sample']) if 'sample' in case else build(case['desc'])
+        for op in case.get('post', ()):
+            # public calls made on the finished lens before it is used (multi-step histories)
+            if op[0] == 'scale':
+                optic.scale_system(op[1])
+            elif op[0] == 'set_thickness':
+                optic.set_thickness(op[1], op[2])
+            elif op[0] == 'set_radius':
+                optic.set_radius(op[1], op[2])
+            elif op[0] == 'set_conic':
+                optic.set_conic(op[1], op[2])
+            elif op[0] == 'set_index':
+                optic.set_index(op[1], op[2])
+            elif op[0] == 'warm':
+                # queries that may fill caches
+                optic.paraxial.EPL(); optic.paraxial.f2()
+                optic.trace_generic(0.0, 0.3, 0.1, 0.4, optic.primary_wavelength)
+        return optic
